@@ -60,10 +60,19 @@ def byte_level_check(self, rep, workdir):
     observables intact is a NOTE, not a violation (a layout-preserving rewrite must not raise an alarm)."""
     stage = []
     import bbi_codec
+    import subprocess
+    seen_inputs = set()
     for c in self._last_cases:
         o = c.opts()
         if c.kind not in ("wig", "bed") or o.get("zooms") == "auto" or (self._last_impl.get(c.id) or ["x"])[0] != "R ok":
             continue
+        # one model run per (input, format options): run-time configurations of the same input must give the same bytes
+        # anyway (C11 compares them with each other), and the model is the slow side
+        key = (c.kind, tuple(c.lines[1:]), o.get("compress"), o.get("ips"), o.get("bs"), o.get("zooms"), o.get("sort"),
+               (self._last_impl.get(c.id) or ["", "", ""])[2] if o.get("compress") != "0" else "")
+        if key in seen_inputs:
+            continue
+        seen_inputs.add(key)
         if c.kind == "wig" and (c.tags & {"zero_length_mid", "zero_length_at_0", "zero_length_at_end"}):
             continue
         extra = []
@@ -78,7 +87,11 @@ def byte_level_check(self, rep, workdir):
             except Exception:
                 continue
         stage.append(CaseT("wb_" + c.id, "wigbytes" if c.kind == "wig" else "bedbytes", [], c.lines + extra))
-    mo = run_model(stage, os.path.join(workdir, "bytes"))
+    try:
+        mo = run_model(stage, os.path.join(workdir, "bytes"), timeout=1500)
+    except subprocess.TimeoutExpired:
+        rep.notes.append(f"(B) byte-level: the model writer did not finish {len(stage)} files within its time limit; skipped (evidence only)")
+        return
     eq = ne = na = 0
     fileof_eq = fileof_ne = 0
     first = None
